@@ -17,6 +17,7 @@ RULE = ("base cases: y in {0,1,3}^6 (quick) / V^6 (thorough) x x-patterns x n x 
 ASSUMPTIONS = ["tolerance 1e-9 relative to the mapped magnitudes; dyadic maps are compared exactly (bytes)",
                "adaptive strategies: only exactly representable value maps (their integer windows are discontinuous in the data)"]
 ANCHORS = {"funfit.py": [(36, 38)], "rfa.py": [(270, 280), (431, 455), (481, 498)]}
+FORMS_HARNESSES = "all"
 EXPLANATION = "metamorphic relations between pairs of real runs over a bounded lattice"
 
 ADAPTIVE = ("linada", "expada")
